@@ -188,8 +188,20 @@ CLAIMS = {
              "round itself (cut at @, last % becomes @) is checked through the loop invariant only at the level 'the probe "
              "follows an @'; senderadd (VERP expansion) and todo_do's per-recipient conservation are not covered.",
         design_ref="DESIGN.md section 5 C10"),
+    "C13": dict(
+        text="PARTIAL claim. Proof (CBMC) on the unmodified qmail-local.c: qmesearch() (loop contract, ghost index; extensions "
+             "<= 63 bytes): exact name first, then -default at every dash from the longest prefix down to the bare default, "
+             "all built from the sanitised extension, none skipped, first existing wins, DEFAULT set; qmeexists(): only "
+             "regular files not writable by others, temporary/permission errors defer, x bit = forward-only; checkhome(): "
+             "writable or sticky home defers; mailprogram(): 0 continue, 99 stop-with-success, {100,64,65,70,76,77,78,112} "
+             "permanent, crash and everything else temporary.",
+        note="NOT covered: the instruction dispatch loop, 'forward only after all others succeeded', the refusal of file/"
+             "program lines in an executable .qmail, the construction of safeext (lower-casing, dot->colon) and the "
+             "Delivered-To loop check, all of which live in the 250-line main(); bouncexf and mailforward are not yet under "
+             "contract.",
+        design_ref="DESIGN.md section 5 C13"),
 }
 
 NOT_APPLICABLE = {p: PENDING for p in
-                  ["C13",
+                  [
                    "C17", "C20"]}
